@@ -809,6 +809,163 @@ theorem reach_M {M mc nk : Nat} {progs : List (List Round)} {s : St} (h : Reach 
   | init => rfl
   | step a _ hs ih => rw [step_M _ _ a hs, ih]
 
+/-! ## who closes a connection -/
+
+/-- where the `closed` flag of `(k', n')` may differ between `s` and `s'` after a step of client `t`:
+the connection `t` held when the step began, an idle pooled connection (the pool's own forced sweep),
+or the brand-new connection object made for `t` in this step -/
+def closedDelta (s s' : St) (t : Nat) : Prop :=
+  ∀ k' n', s'.closed k' n' ≠ s.closed k' n' →
+    s.pc t = .holding k' n' ∨ n' ∈ (s.host k').ready ∨ n' = (s.host k').next
+
+theorem hostAcquire_closed (s s' : St) (t k : Nat) (g : Option Nat) (h : hostAcquire s t k g = some s') :
+    ∀ k' n', s'.closed k' n' ≠ s.closed k' n' → k' = k ∧ n' = (s.host k).next := by
+  unfold hostAcquire at h
+  intro k' n' hne
+  repeat' split at h
+  all_goals first | cases h | skip
+  all_goals simp only [grantReady, grantFresh, waitOn, setHost] at hne
+  all_goals first | exact absurd rfl hne | skip
+  by_cases hk : (k', n') = (k, (s.host k).next)
+  · cases hk; exact ⟨rfl, rfl⟩
+  · exact absurd (upd2_ne _ _ _ _ _ _ hk) hne
+
+theorem acquire_closed (s s' : St) (t k : Nat) (g : Option Nat) (h : acquire s t k g = some s') :
+    ∀ k' n', s'.closed k' n' ≠ s.closed k' n' → n' = (s.host k').next := by
+  unfold acquire at h
+  intro k' n' hne
+  have := hostAcquire_closed _ _ _ _ _ h k' n' (by
+    intro e; apply hne; rw [e]; split <;> rfl)
+  obtain ⟨hk, hn⟩ := this
+  subst hk
+  rw [hn]
+  split <;> simp [setHost]
+
+theorem beginRound_closed (s s' : St) (t : Nat) (pops : List Nat) (g : Option Nat)
+    (h : beginRound s t pops g = some s') :
+    ∀ k' n', s'.closed k' n' ≠ s.closed k' n' → n' = (s.host k').next := by
+  unfold beginRound at h
+  intro k' n' hne
+  split at h
+  · split at h
+    · cases h; exact absurd rfl hne
+    · cases h
+  · split at h
+    · cases h
+    · rename_i s1 r hd
+      obtain ⟨p, hp⟩ := drainGo_eq _ _ _ _ hd
+      split at h
+      · cases h; subst hp; exact absurd rfl hne
+      · cases h
+    · rename_i s1 hd
+      obtain ⟨p, hp⟩ := drainGo_eq _ _ _ _ hd
+      subst hp
+      exact acquire_closed _ _ _ _ _ h k' n' hne
+
+theorem releaseOp_closed (s : St) (k n : Nat) :
+    ∀ k' n', (releaseOp s k n).closed k' n' ≠ s.closed k' n' → (k', n') = (k, n) ∨ n' ∈ (s.host k').ready := by
+  intro k' n' hne
+  simp only [releaseOp, cleanAll, hostRelease, setHost] at hne
+  by_cases hc : k' = k
+  · subst hc
+    by_cases hn : n' = n
+    · left; rw [hn]
+    · right
+      revert hne
+      split <;> simp [upd] <;> intro h <;> split at h <;> simp_all
+  · right
+    revert hne
+    split <;> simp [upd, hc]
+    all_goals intro _ _ h _; exact h
+
+theorem releaseOp_next (s : St) (k n k' : Nat) : ((releaseOp s k n).host k').next = (s.host k').next := by
+  simp only [releaseOp, cleanAll, hostRelease, setHost]
+  split <;> simp only [upd] <;> split <;> simp_all
+
+theorem endRound_closed (s : St) (t k n : Nat) (rd : Round) (rest : List Round) :
+    (∀ k' n', (endRound s t k n rd rest).closed k' n' ≠ s.closed k' n' → (k', n') = (k, n) ∨ n' ∈ (s.host k').ready) ∧
+    (∀ k', ((endRound s t k n rd rest).host k').next = (s.host k').next) := by
+  unfold endRound
+  dsimp only
+  split
+  · refine ⟨?_, fun k' => by rw [releaseOp_next]⟩
+    intro k' n' hne
+    by_cases hk : (k', n') = (k, n)
+    · exact Or.inl hk
+    · have := releaseOp_closed _ k n k' n' (by
+        intro e; apply hne; rw [e]; exact upd2_ne _ _ _ _ _ _ hk)
+      exact this
+  · refine ⟨?_, fun k' => rfl⟩
+    intro k' n' hne
+    by_cases hk : (k', n') = (k, n)
+    · exact Or.inl hk
+    · exact absurd (upd2_ne _ _ _ _ _ _ hk) hne
+
+/-- **closes_only_own** — session ownership: a step of client `t` changes the closed state only of
+the connection `t` holds when the step begins (use, `abort()`, connect), of idle pooled connections
+(the pool's own forced sweep during `t`'s direct check-in) or of the connection object just made
+for `t`.  In particular a client that has given its connection back — finished, cancelled, or
+waiting for its next one — never closes it: leaving the session block late (`__exit__` → `abort()`
+after `recycle()`) touches nothing, whoever holds the connection by then. -/
+theorem closes_only_own (s s' : St) (t : Nat) (pops : List Nat) (g : Option Nat)
+    (h : step s (.client t pops g) = some s') : closedDelta s s' t := by
+  unfold step at h
+  dsimp only at h
+  unfold stepClient at h
+  intro k' n' hne
+  split at h
+  · cases h
+  · split at h
+    · split at h
+      · cases h
+        simp only [deliverCancel] at hne
+        split at hne
+        · rename_i k hpc
+          simp only [cancelWait, setHost] at hne
+          split at hne <;> exact absurd rfl hne
+        · rename_i k n hpc
+          simp only [spawnRel] at hne
+          by_cases hk : (k', n') = (k, n)
+          · cases hk; exact Or.inl hpc
+          · exact absurd (upd2_ne _ _ _ _ _ _ hk) hne
+        · exact absurd rfl hne
+      · cases h
+    · split at h
+      · exact Or.inr (Or.inr (beginRound_closed _ _ _ _ _ h k' n' hne))
+      · exact Or.inr (Or.inr (beginRound_closed _ _ _ _ _ h k' n' hne))
+      · split at h
+        · have := hostAcquire_closed _ _ _ _ _ h k' n' hne
+          rename_i k hpc _
+          obtain ⟨hk, hn⟩ := this
+          subst hk
+          right; right; rw [hn]; simp [setHost]
+        · cases h
+      · rename_i k n hpc
+        split at h
+        · cases h
+        · rename_i rd rest hprog
+          have he := endRound_closed { s with evs := [] } t k n rd rest
+          by_cases hmid : (endRound { s with evs := [] } t k n rd rest).closed k' n' = s.closed k' n'
+          · have := beginRound_closed _ _ _ _ _ h k' n' (by rw [hmid]; exact hne)
+            right; right; rw [this, he.2]
+          · rcases he.1 k' n' hmid with hk | hr
+            · cases hk; exact Or.inl hpc
+            · exact Or.inr (Or.inl hr)
+      · cases h
+      · cases h
+
+/-- a release task (the pool's own deferred check-in) closes nothing but idle pooled connections
+(forced sweep above `max_count`) -/
+theorem release_task_closes_only_idle (s s' : St) (r : Nat) (h : step s (.rel r) = some s') :
+    ∀ k' n', s'.closed k' n' ≠ s.closed k' n' → (k', n') = s.relConn r ∨ n' ∈ (s.host k').ready := by
+  unfold step at h
+  dsimp only at h
+  split at h
+  · cases h
+    intro k' n' hne
+    exact releaseOp_closed { s with evs := [], relDone := upd s.relDone r true } _ _ k' n' hne
+  · cases h
+
 /-! ## Property theorems (C12)
 
 All for every configuration (`N` client programs of any length over any host keys, any limit
@@ -1054,6 +1211,12 @@ example : ((run (init 1 100 2 [[⟨0, false, false⟩], [⟨1, false, false⟩]]
 example : ((run (init 1 100 2 [[⟨0, false, false⟩]])
     [.client 0 [] (some 0), .client 0 [] none, .rel 0, .rclose 0 0]).map
     fun s => (s.present, (s.host 0).ready, s.closed 0 0, s.dirty 0 0)) = some ([0], [0], true, true) := by decide
+
+-- closes_only_own: the delta is inhabited — the holder's own step changes the flag of the connection it holds
+-- (here: the first use connects it), and nothing else
+example : ((run (init 1 100 1 [[⟨0, false, false⟩], [⟨0, false, false⟩]]) [.client 0 [] (some 0)]).bind fun s =>
+    (step s (.client 0 [] none)).map fun s' => (s.pc 0, s.closed 0 0, s'.closed 0 0, s'.pc 0)) =
+    some (.holding 0 0, true, false, .done) := by decide
 
 /-! ## the defect that was repaired (DESIGN.md section 7, row 10)
 
